@@ -471,12 +471,20 @@ def enum_variants(src_dirs):
                         c = txt[i]
                         if c == '{' or c == '(' or c == '[': depth += 1
                         elif c == '}' or c == ')' or c == ']': depth -= 1
-                        if depth >= 1: body.append(c if depth == 1 else ' ')
+                        if depth >= 1: body.append(c if (depth == 1 and c not in ')]}') else ' ')
                         i += 1
                     b = ''.join(body)
-                    vs = []
+                    vs = []; nxt = 0; dv = {}
                     for part in b.split(','):
-                        mm = re.match(r'[\s#]*(\w+)', part)
-                        if mm: vs.append(mm.group(1))
-                    out.setdefault(name, vs)
+                        mm = re.match(r'[\s#]*(\w+)\s*(?:=\s*(-?\d+))?', part)
+                        if mm:
+                            vs.append(mm.group(1))
+                            if mm.group(2) is not None: nxt = int(mm.group(2))
+                            dv[mm.group(1)] = nxt; nxt += 1
+                    if name not in out:
+                        out[name] = vs
+                        if any(dv[v] != i for i, v in enumerate(vs)): EXPLICIT_DISCR[name] = dv
     return out
+
+
+EXPLICIT_DISCR = {'Ordering': {'Less': -1, 'Equal': 0, 'Greater': 1}}
